@@ -83,15 +83,28 @@ pub struct Extract {
     pub parse_errors: usize,
 }
 
+/// All token-level leaves under `n` in source order (`SyntaxNode::tokens` stops at terminals).
+fn leaf_tokens<'a>(db: &'a dyn Database, n: SyntaxNode<'a>, out: &mut Vec<SyntaxNode<'a>>) {
+    if n.text(db).is_some() {
+        out.push(n);
+        return;
+    }
+    for c in n.get_children(db).iter() {
+        leaf_tokens(db, *c, out);
+    }
+}
+
 fn node_tokens(db: &dyn Database, n: SyntaxNode<'_>, out: &mut Vec<String>) {
-    for t in n.tokens(db) {
-        let k = t.kind(db);
-        if is_trivia_token(k) || k == SyntaxKind::TokenEndOfFile || k == SyntaxKind::TokenMissing {
-            continue;
-        }
-        if let Some(text) = t.text(db) {
+    // Down to the token level (`SyntaxNode::tokens` stops at terminals, which carry no text).
+    if let Some(text) = n.text(db) {
+        let k = n.kind(db);
+        if !(is_trivia_token(k) || k == SyntaxKind::TokenEndOfFile || k == SyntaxKind::TokenMissing) {
             out.push(text.long(db).to_string());
         }
+        return;
+    }
+    for c in n.get_children(db).iter() {
+        node_tokens(db, *c, out);
     }
 }
 
@@ -101,7 +114,7 @@ fn expand_use(tokens: &[String]) -> Vec<String> {
     let Some(upos) = tokens.iter().position(|t| t == "use") else {
         return vec![tokens.join(" ")];
     };
-    let prefix = tokens[..upos].join(" ");
+    let prefix = strip_trailing_commas(&tokens[..upos]).join(" ");
     let body: Vec<&str> = tokens[upos + 1..].iter().map(|s| s.as_str()).filter(|s| *s != ";").collect();
     fn rec(toks: &[&str], pos: &mut usize, base: String, out: &mut Vec<String>) {
         // Parses one use tree starting at *pos until a `,` or `}` at this level.
@@ -146,7 +159,8 @@ fn expand_use(tokens: &[String]) -> Vec<String> {
     let mut out = vec![];
     let mut pos = 0;
     rec(&body, &mut pos, String::new(), &mut out);
-    out.into_iter().map(|p| format!("{prefix} use {p}")).collect()
+    // `a::{self}` and `a` import the same thing; the merger prints the short form.
+    out.into_iter().map(|p| format!("{prefix} use {}", p.strip_suffix("::self").unwrap_or(&p))).collect()
 }
 
 fn walk_items(db: &dyn Database, n: SyntaxNode<'_>, ex: &mut Extract) {
@@ -166,7 +180,8 @@ fn walk_items(db: &dyn Database, n: SyntaxNode<'_>, ex: &mut Extract) {
             if !has_body {
                 let mut toks = vec![];
                 node_tokens(db, n, &mut toks);
-                *ex.mods.entry(toks.join(" ")).or_default() += 1;
+                // Attribute arguments broken over lines get an optional trailing comma.
+                *ex.mods.entry(strip_trailing_commas(&toks).join(" ")).or_default() += 1;
                 return;
             }
         }
@@ -189,7 +204,9 @@ pub fn extract(text: &str) -> Extract {
     let mut ex = Extract { parse_errors: diags.get_all().len(), ..Default::default() };
     walk_items(&db, root, &mut ex);
     node_tokens(&db, root, &mut ex.all_tokens);
-    for t in root.tokens(&db) {
+    let mut leaves = vec![];
+    leaf_tokens(&db, root, &mut leaves);
+    for t in leaves {
         if matches!(
             t.kind(&db),
             SyntaxKind::TokenSingleLineComment
@@ -281,7 +298,28 @@ pub fn check_format(text: &str, cfg: &FmtCfg) -> Result<bool, (String, String)> 
                 .collect()
         };
         let l1: Vec<&str> = f1.lines().collect();
-        let near_comment = (line.saturating_sub(3)..(line + 2).min(l1.len()))
+        let l2: Vec<&str> = f2.lines().collect();
+        // The first changed hunk: from the first differing line to where the two outputs fall
+        // back in step (three equal lines in a row). A re-broken construct is re-indented up to
+        // its end, so the hunk covers the construct whose layout flipped.
+        let first = line - 1;
+        let mut hunk_len = 1usize;
+        let limit = 400usize;
+        'sync: for total in 0..2 * limit {
+            for i in 0..=total.min(limit) {
+                let j = total - i;
+                if j > limit {
+                    continue;
+                }
+                let (a, b) = (first + i, first + j);
+                if a + 3 <= l1.len() && b + 3 <= l2.len() && (i > 0 || j > 0) && l1[a..a + 3] == l2[b..b + 3] {
+                    hunk_len = i.max(1);
+                    break 'sync;
+                }
+            }
+            hunk_len = l1.len().saturating_sub(first).max(1);
+        }
+        let near_comment = (line.saturating_sub(3)..(first + hunk_len + 2).min(l1.len()))
             .any(|i| l1.get(i).is_some_and(|l| l.contains("//")));
         let near_use = (line.saturating_sub(3)..(line + 2).min(l1.len()))
             .any(|i| l1.get(i).is_some_and(|l| l.trim_start().starts_with("use ") || l.trim_start().starts_with("pub use ")));
@@ -300,22 +338,37 @@ pub fn check_format(text: &str, cfg: &FmtCfg) -> Result<bool, (String, String)> 
             format!("formatting the output again changes it at line {line}: first pass {ctx1:?}, second pass {ctx2:?}"),
         ));
     }
-    // Comments.
-    let mut c1 = before.comments.clone();
-    let mut c2 = after.comments.clone();
+    // Comments. Long comments are re-wrapped to the line width (a layout change), so what is
+    // compared is the sequence of (comment kind, word), not the sequence of comment lines.
+    let words = |cs: &[String]| -> Vec<(String, String)> {
+        let mut out = vec![];
+        for c in cs {
+            // The marker is the whole run of slashes (plus `!`): a wrapped `//////// text`
+            // repeats all of it on the continuation line.
+            let run = c.len() - c.trim_start_matches('/').len();
+            let run = if c[run..].starts_with('!') { run + 1 } else { run };
+            let (marker, rest) = c.split_at(run);
+            for w in rest.split_whitespace() {
+                out.push((marker.to_string(), w.to_string()));
+            }
+        }
+        out
+    };
+    let mut c1 = words(&before.comments);
+    let mut c2 = words(&after.comments);
     if !cfg.sort && !cfg.merge {
         if c1 != c2 {
-            return Err(("comments-changed".into(), format!("comments differ (order-sensitive): {} before, {} after; first difference {:?} vs {:?}",
-                c1.len(), c2.len(),
-                c1.iter().zip(c2.iter()).find(|(a, b)| a != b).map(|x| x.0), c1.iter().zip(c2.iter()).find(|(a, b)| a != b).map(|x| x.1))));
+            let i = c1.iter().zip(c2.iter()).take_while(|(a, b)| a == b).count();
+            return Err(("comments-changed".into(), format!("comment words differ (order-sensitive): {} before, {} after; first difference at word {i}: {:?} vs {:?}",
+                c1.len(), c2.len(), c1.get(i), c2.get(i))));
         }
     } else {
         c1.sort();
         c2.sort();
         if c1 != c2 {
-            let lost: Vec<&String> = c1.iter().filter(|c| !c2.contains(c)).take(3).collect();
-            let added: Vec<&String> = c2.iter().filter(|c| !c1.contains(c)).take(3).collect();
-            return Err(("comments-changed".into(), format!("multiset of comments differs: lost {lost:?}, added {added:?} ({} before, {} after)", c1.len(), c2.len())));
+            let lost: Vec<&(String, String)> = c1.iter().filter(|c| !c2.contains(c)).take(3).collect();
+            let added: Vec<&(String, String)> = c2.iter().filter(|c| !c1.contains(c)).take(3).collect();
+            return Err(("comments-changed".into(), format!("multiset of comment words differs: lost {lost:?}, added {added:?} ({} before, {} after)", c1.len(), c2.len())));
         }
     }
     // Code tokens.
@@ -463,7 +516,9 @@ pub fn layout_mutant(text: &str, rng: &mut Rng, uid: &mut u64) -> (String, &'sta
             let db = SimpleParserDatabase::default();
             let (root, _) = db.parse_virtual_with_diagnostics(text);
             let mut idents: Vec<(usize, usize)> = vec![];
-            for t in root.tokens(&db) {
+            let mut leaves = vec![];
+            leaf_tokens(&db, root, &mut leaves);
+            for t in leaves {
                 if t.kind(&db) == SyntaxKind::TokenIdentifier {
                     let sp = t.span(&db);
                     idents.push((sp.start.as_u32() as usize, sp.end.as_u32() as usize));
@@ -517,13 +572,111 @@ pub fn layout_mutant(text: &str, rng: &mut Rng, uid: &mut u64) -> (String, &'sta
     }
 }
 
+/// A file made of `use` items (nested groups, aliases, repeated names and paths, `self`, `*`,
+/// visibility, attributes, comments) and `mod` declarations: the input space of the sorting /
+/// merging / de-duplicating options.
+pub fn gen_use_file(rng: &mut Rng) -> String {
+    const SEGS: &[&str] = &["a", "b", "c", "d", "core", "x", "yy", "Zed"];
+    fn tree(rng: &mut Rng, depth: usize, out: &mut String) {
+        let n = 1 + rng.below(3);
+        for k in 0..n {
+            if k > 0 {
+                out.push_str("::");
+            }
+            out.push_str(SEGS[rng.below(SEGS.len())]);
+        }
+        match rng.below(8) {
+            0 | 1 => {
+                out.push_str(" as ");
+                out.push_str(["x", "y", "alias", "b"][rng.below(4)]);
+            }
+            2 | 3 if depth > 0 => {
+                out.push_str("::{");
+                let m = 1 + rng.below(4);
+                for k in 0..m {
+                    if k > 0 {
+                        out.push_str(", ");
+                    }
+                    if rng.chance(1, 8) {
+                        out.push_str("self");
+                    } else if rng.chance(1, 10) {
+                        out.push('*');
+                    } else {
+                        tree(rng, depth - 1, out);
+                    }
+                }
+                if rng.bool() {
+                    out.push(',');
+                }
+                out.push('}');
+            }
+            4 if rng.chance(1, 3) => out.push_str("::*"),
+            _ => {}
+        }
+    }
+    let mut s = String::new();
+    let n = 2 + rng.below(9);
+    let mut earlier: Vec<String> = vec![];
+    for i in 0..n {
+        if rng.chance(1, 6) {
+            s.push_str(&format!("// note {i}\n"));
+        }
+        if rng.chance(1, 8) {
+            s.push_str(&format!("mod m{};\n", rng.below(4)));
+            continue;
+        }
+        if rng.chance(1, 8) {
+            s.push_str("#[cfg(test)]\n");
+        }
+        if rng.chance(1, 6) {
+            s.push_str("pub ");
+        }
+        s.push_str("use ");
+        // Re-import something already imported (same path, usually another alias) now and then.
+        if !earlier.is_empty() && rng.chance(1, 3) {
+            let base = earlier[rng.below(earlier.len())].clone();
+            let base = base.split(" as ").next().unwrap().to_string();
+            s.push_str(&base);
+            if rng.chance(2, 3) {
+                s.push_str(" as ");
+                s.push_str(["x", "y", "alias", "other"][rng.below(4)]);
+            }
+        } else {
+            let mut t = String::new();
+            tree(rng, 2, &mut t);
+            if !t.contains('{') && !t.contains('*') {
+                earlier.push(t.clone());
+            }
+            s.push_str(&t);
+        }
+        s.push_str(";\n");
+        if rng.chance(1, 7) {
+            s.push('\n');
+        }
+    }
+    s.push_str("fn main() {}\n");
+    s
+}
+
 pub fn c11_worker(ctx: &mut Ctx) {
     install_panic_hook();
-    let files: Vec<(String, String)> = crate::corpus::cairo_files()
+    let mut files: Vec<(String, String)> = crate::corpus::cairo_files()
         .into_iter()
         .map(|(p, s)| (crate::corpus::rel(&p), s))
         .filter(|(_, s)| s.len() < 120_000)
         .collect();
+    // Generated inputs: import blocks, and programs of the C01 generator (deeply nested
+    // expressions on long lines).
+    for i in 0..ctx.tier.pick(120u64, 1500) {
+        let mut rng = Rng::derive(ctx.seed, &[1100, i]);
+        files.push((format!("generated-uses#{i}"), gen_use_file(&mut rng)));
+    }
+    for i in 0..ctx.tier.pick(40u64, 500) {
+        let mut rng = Rng::derive(ctx.seed, &[1, i]);
+        if let Ok((program, _)) = guarded(|| crate::pgen::generate(&mut rng)) {
+            files.push((format!("generated-program#{i}"), crate::pgen::render_program(&program)));
+        }
+    }
     ctx.count("corpus_files", if ctx.shard == 0 { files.len() as u64 } else { 0 });
     let mutants_per_file: u64 = ctx.tier.pick(3, 40);
     let cfgs_per_text: u64 = ctx.tier.pick(3, 8);
